@@ -235,6 +235,7 @@ def run_c04(rep, tier):
     for n in (7089, 7090, 4296, 4297, 2953, 2954, 1817, 1818):
         mode = {7089: 'numeric', 7090: 'numeric', 4296: 'alphanumeric', 4297: 'alphanumeric', 2953: 'byte', 2954: 'byte', 1817: 'kanji', 1818: 'kanji'}[n]
         calls.append(call('make', gen.content_for_mode(r, mode, n)))
+    calls += gen.eci_boundary_calls(call, tier == 'quick')
     obs = symobs.observe_many(calls, props=['C04'])
     for o in obs:
         o['exp']['req'] = norm_req(o['_call'])
@@ -260,7 +261,7 @@ def run_c05(rep, tier):
     r = gen.rng(common.seed(), 'C05')
     # boundaries of *every level* of the chosen version: lengths at the capacity of each level
     extra = []
-    for v in ([-2, -1, 0, 1, 2, 5, 10, 27] if tier == 'quick' else list(range(-2, 41))):
+    for v in ([-2, -1, 0, 1, 2, 5, 9, 10, 26, 27, 40] if tier == 'quick' else list(range(-2, 41))):
         for e in T.levels_of(v):
             for mode in ('numeric', 'alphanumeric', 'byte'):
                 nmax = T.max_chars(v, e, mode)
@@ -340,6 +341,15 @@ def c07_calls(tier, r):
         for s2 in seeds:
             calls.append(call('make', s1 + s2))
         calls.append(call('make', s1 + b'0'))
+        # a class followed by one control byte (a pattern anchored with $ instead of \\Z accepts a trailing line feed)
+        for tail in (b'\n', b'\r', b'\x00', b'\n\n', b'\x0b'):
+            calls.append(call('make', s1 + tail))
+            calls.append(call('make', s1 + s1 + tail))
+            calls.append(call('make', tail + s1))
+    for base in ('123', 'AB', '\u70b9', '\u70b9\u8317', gen.kanji(r, 4)):
+        for tail in ('\n', '\r', '\r\n', '\x00'):
+            for kw in ({}, {'micro': False}, {'mode': 'kanji'}, {'mode': 'numeric'}, {'mode': 'alphanumeric'}):
+                calls.append(call('make', base + tail, **kw))
     # text per class, automatic mode, with / without micro
     for n in (1, 2, 3, 5, 8):
         for mode in ('numeric', 'alphanumeric', 'byte', 'kanji'):
